@@ -127,14 +127,29 @@ package dawn
 //@   ensures result == tlabel(this)
 //@ func (dawn.Target).Doc
 //@   pure
+//@ struct dawn.runTarget
+//@   stable target writers (*dawn.Project).loadFunction, (*dawn.Project).loadSourceFile, (*dawn.Project).loadIndex
+//   restamps(t) - the kind of target t identifies its executions in its stamp (function targets do;
+//                 a source's stamp is the checksum of its content)
+//   tdata(t)    - the stamp in the record t was loaded with
+//@ specfn restamps(value) bool
+//@ specfn tdata(value) string
+//@ specfn existed(string) bool
+//@ smt <<<
+//@ (declare-fun restamps (Iface) Bool)
+//@ (declare-fun tdata (Iface) Str)
+//@ (declare-fun existed (Str) Bool)
+//@ >>>
 //@ func (dawn.Target).info
 //@   pure
+//@   ensures result.Data == tdata(this)
 //@ func (dawn.Target).dependencies
 //@   pure
 //@ func (dawn.Target).upToDate
 //@   modifies heap
 //@ func (dawn.Target).evaluate
 //@   ensures n_body == old(n_body) + 1 && body_ok == (err == nil) && body_data == data
+//@   ensures fresh-stamp-for-kinds-that-restamp: (restamps(this) && err == nil) ==> (changed && data != tdata(this))
 //@   modifies heap, n_body, body_ok, body_data
 
 //   n_depeval - dependency evaluations requested from the engine by this goroutine
@@ -163,7 +178,7 @@ package dawn
 //@   ensures  fail-no-stamp: (n_body == old(n_body) + 1 && !body_ok) ==> (result != nil && phase == 3 && n_save == old(n_save) + 1 && saved_rerun && saved_data == "")
 //@   ensures  success-recorded: (n_body == old(n_body) + 1 && body_ok && result == nil) ==> (phase == 2 && n_save == old(n_save) + 1 && !saved_rerun && saved_data == t.data && saved_deps == depData)
 //@   ensures  success-stamp: (n_body == old(n_body) + 1 && body_ok && result == nil && t.changed) ==> t.data == body_data
-//@   ensures  restamped-after-dependency-change: (n_body == old(n_body) + 1 && body_ok && result == nil && !depsUpToDate) ==> t.data != info.Data
+//@   ensures  restamped-after-execution: (n_body == old(n_body) + 1 && body_ok && result == nil && restamps(t.target)) ==> t.data != info.Data
 //@   callsite TargetUpToDate: assert skip-sound: !proj.always && depsUpToDate && upToDate && !info.Rerun
 //@   callsite TargetEvaluating: assert not-skippable: proj.always || !depsUpToDate || !upToDate || info.Rerun
 //@   callsite evaluate: assert after-evaluating: phase == 1 && !proj.dryrun
@@ -180,10 +195,18 @@ package dawn
 //@   ensures  changed-on-success: result.2 == nil && result.1 && result.0 == old(f.sum)
 //@   modifies f.oldSum
 
+// A function target's stamp names the execution: it differs from the stamp the target was loaded
+// with (and from every stamp that existed before - time-based identifiers are unique: the trusted
+// contract of newStamp; that a loaded record holds a stamp that existed is an assumption).
+//@ func dawn.newStamp
+//@   trusted
+//@   ensures unique: forall s: string :: existed(s) ==> result != s
 //@ func (*dawn.function).evaluate
 //@   requires f != nil && f.out != nil
 //@   requires pending-oneline: forall i: int :: 0 <= i && i < len(sb[f.out]) ==> sb[f.out][i] != 10
+//@   requires recorded-stamp-existed: existed(f.targetInfo.Data)
 //@   ensures  changed-on-success: result.2 == nil ==> result.1
+//@   ensures  fresh-stamp: result.2 == nil ==> result.0 != old(f.targetInfo.Data)
 //@   ensures  no-stamp-on-failure: result.2 != nil ==> (result.0 == "" && !result.1)
 //@   modifies heap, sb, lx, n_print, printed_len, call_failed
 
@@ -620,7 +643,7 @@ package dawn
 
 // C01: a dependency whose present stamp equals the stamp a target recorded has not executed since
 // that record was made, provided every execution changes the stamp (content checksums for
-// sources; Evaluate#post:restamped-after-dependency-change for function targets) - which is what
+// sources; Evaluate#post:restamped-after-execution for function targets) - which is what
 // lets Evaluate#step:dep-checked stand for "no dependency executed since".
 //@ lemma C01-skip int <<<
 //@ (declare-fun stamp (Int) Int)
